@@ -285,10 +285,26 @@ def error_matching(ctx):
             if isinstance(n, ast.Expr) and isinstance(n.value, ast.Call) and call_attr(n.value) in ('append', 'pop') and n.value.args and \
                     isinstance(n.value.args[0], ast.Constant) and n.value.args[0].value is None:
                 nones.append(n)
+        # ... and it IS tried for the error of an unknown action: with REQUEST2REPLY[...] the KeyError handler does it, with
+        # REQUEST2REPLY.get(...) there has to be a None-key fall-back on the side where the lookup found nothing
+        for g in [x for x in maps if isinstance(x, ast.Call)]:
+            fallback = [n for n in nones if set(ucfg.ids(n)) and set(ucfg.ids(n)) <= unknown_side]
+            ctx.check(bool(fallback), f'{fi.qualname}:error of an unknown action reaches the catch-all slot', g, 'None key tried when the action is not in REQUEST2REPLY',
+                      f'`{src(g)}` yields None for an action that is not in REQUEST2REPLY, and that None ends up inside the key (`(None, ident)`) instead of the '
+                      'catch-all key None: the error reply to a request with an unknown action is never delivered, its caller waits for the time-out', unit)
         for n in nones:
             ids = set(ucfg.ids(n))
             in_keyerror = any(part == 'handler' and any(x in maps for st in t.body for x in ast.walk(st)) for t, part in enclosing_tries(n))
             ok = bool(ids) and (ids <= noerr_side or ids <= unknown_side or in_keyerror)
+            if not ok and isinstance(n, ast.Assign):
+                # a default (`key = None` in front of the error test): harmless when it is overwritten on the error side - every
+                # path on which THIS binding reaches a pop leaves the error test on its not-an-error side
+                var = n.targets[0].id
+                redefs = [i for x in body_walk(unit.node) if isinstance(x, ast.Assign) and x is not n and any(isinstance(t, ast.Name) and t.id == var for t in x.targets)
+                          for i in ucfg.ids(x)]
+                pops = [i for c in calls_in(unit.node) if call_attr(c) == 'pop' and 'active_requests' in src(c.func) and c.args and src(c.args[0]) == var
+                        for i in ucfg.node_of(c)]
+                ok = bool(pops) and paths_need_fact(ucfg, list(ids), pops, not_error, avoid=redefs)
             ctx.check(ok, f'{fi.qualname}:catch-all slot only for messages of unknown requests', n, 'None key only for non-error messages / errors of unknown actions',
                       f'`{src(n)}` lets the error reply of a KNOWN action fall through to the catch-all key None: a late `error_change mod:p` (its caller timed out) is '
                       'handed to the caller of a concurrent request with an unknown action, whose own reply then ends as an unhandled message', unit)
@@ -331,11 +347,21 @@ def dequeued_entry_is_never_dropped(ctx):
     ctx.analysed(tx)
     gets = [n for n in body_walk(tx.node) if isinstance(n, ast.Assign) and isinstance(n.value, ast.Call) and call_attr(n.value) == 'get'
             and 'txq' in src(n.value.func) and isinstance(n.targets[0], ast.Name)]
-    if not gets:
+    # `for entry in iter(self.txq.get, None):` (or a small method wrapping txq.get) - the loop statement is the dequeue
+    forgets = []
+    for n in body_walk(tx.node):
+        if isinstance(n, ast.For) and isinstance(n.iter, ast.Call) and dotted(n.iter.func) == 'iter' and len(n.iter.args) == 2 and isinstance(n.target, ast.Name):
+            fn = n.iter.args[0]
+            direct = 'txq' in src(fn) and src(fn).endswith('.get')
+            via = isinstance(fn, ast.Attribute) and dotted(fn.value) == 'self' and m.has_method(C, fn.attr) and \
+                any(call_attr(c) == 'get' and 'txq' in src(c.func) for c in calls_in(m.method(C, fn.attr).node))
+            if direct or via:
+                forgets.append(n)
+    if not gets and not forgets:
         raise AnchorMissing('txq.get() in the transmit thread not found')
-    for g in gets:
-        var = g.targets[0].id
-        loop = next((a for a in ancestors(g) if isinstance(a, ast.While)), None)
+    for g in gets + forgets:
+        var = g.targets[0].id if isinstance(g, ast.Assign) else g.target.id
+        loop = g if isinstance(g, ast.For) else next((a for a in ancestors(g) if isinstance(a, ast.While)), None)
         if loop is None:
             ctx.undecided(f'{tx.qualname}:dequeued entry accounted for', g, 'not inside a loop', tx)
             continue
@@ -345,16 +371,20 @@ def dequeued_entry_is_never_dropped(ctx):
                 (isinstance(n, ast.Call) and call_attr(n) == 'put' and n.args and src(n.args[0]) == var) or
                 (isinstance(n, ast.Call) and call_attr(n) == 'set' and var in src(n.func))}
         leaves = [n for n in walk_local(loop) if isinstance(n, (ast.Break, ast.Return))]
+        nleave = 0
         for lv in leaves:
             ids = set(cfg.ids(lv))
-            after_get = cfg.reach(cfg.node_of(g), avoid=keep)
+            after_get = cfg.reach(cfg.ids(g) if isinstance(g, ast.For) else cfg.node_of(g), avoid=keep)
             if not (ids & after_get):
                 continue
+            nleave += 1
             guards = [a.test for a in ancestors(lv) if isinstance(a, ast.If) and any(a is x for x in ast.walk(loop))]
             pure = any(src(t) == f'{var} is None' for t in guards)
             ctx.check(pure, f'{tx.qualname}:loop left with a dequeued entry only for the shutdown marker', lv, f'guarded by `{var} is None`',
                       f'the loop can be left under {[src(t) for t in guards]} with a request entry that was taken from txq but is neither active nor pending: '
                       'disconnect() can not find it, its caller is never released', tx)
+        if not nleave:
+            ctx.ok(f'{tx.qualname}:loop left with a dequeued entry only for the shutdown marker', g, 'the loop is never left between the dequeue and the registration', tx)
 
 
 @rule('C11.R8', min_instances=1)
